@@ -540,8 +540,8 @@ def gen_pyalias() -> typing.Tuple[bool, str]:
     if g.is_async or not (isinstance(g.target, ast.Tuple) and [un(e) for e in g.target.elts] == ['name', 'major']):
         return closed('loop variables are not `name, major`')
     guard_src = "f'{name}_{major}' not in {f'{t.short_name}_{t.version.major}_{t.version.minor}' for t in %s}" % arg
-    if [un(i_) for i_ in g.ifs] not in ([], [guard_src]):
-        return closed('unsupported condition on the aliases: ' + '; '.join(un(i_) for i_ in g.ifs)[:120])
+    if [un(i_) for i_ in g.ifs] != [guard_src]:      # only the guarded (post F-PY-ALIASCLASH) shape is accepted
+        return closed('the aliases are not guarded against class identifiers: ' + '; '.join(un(i_) for i_ in g.ifs)[:120])
     guarded = bool(g.ifs)
     if un(g.iter) != 'sorted({(x.short_name, x.version.major) for x in %s})' % arg:
         return closed('groups are not sorted({(x.short_name, x.version.major) for x in tys}): ' + un(g.iter)[:80])
